@@ -214,6 +214,50 @@ IDENT = M.Transform(lambda x, y, z: (x, y, z), lambda fx, fy, mz, p: (fx, fy, mz
 MIRROR = M.Transform(lambda x, y, z: (-x, y, -z), lambda fx, fy, mz, p: (-fx, fy, -mz), lfac=(1, -1, -1), dfac=(1, -1, -1, -1))
 
 
+def same_system(oA, oB, reversed_ids, what):
+    """the system of equations of the structure put elsewhere, or with some bars drawn from their other end, is the same system with
+    its equations renumbered: every stiffness term and every load entry is found again at the numbers of the same slice nodes (global
+    axes: no sign changes).  Needs no solved run."""
+    if not (oA.get("KEntries") and oB.get("KEntries") and oA.get("Pre") and oB.get("Pre")) or oA.get("SysPanic") or oB.get("SysPanic"):
+        return []
+    pa, pb = oA["Pre"][-1], oB["Pre"][-1]
+    if pa.get("Panic") or pb.get("Panic") or pa["DofCount"] != pb["DofCount"]:
+        return []
+    perm = {}
+    bb = {x["ID"]: x for x in pb["Bars"]}
+    for ba in pa["Bars"]:
+        other = bb.get(ba["ID"])
+        if other is None or len(other["Nodes"]) != len(ba["Nodes"]):
+            return []       # (sliced differently: reported by the comparison of the results, or by C08 / C15)
+        nodes_b = other["Nodes"][::-1] if ba["ID"] in reversed_ids else other["Nodes"]
+        for na, nb in zip(ba["Nodes"], nodes_b):
+            ta, tb = C.ffloat(na["T"]), C.ffloat(nb["T"])
+            if abs((1 - tb if ba["ID"] in reversed_ids else tb) - ta) > Fr(1, 10 ** 13):
+                return []   # (positions closer than 1e-10 are taken for one, from whichever end comes first: not the same finite elements)
+            for x, y in zip(na["Dof"], nb["Dof"]):
+                if perm.setdefault(x, y) != y:
+                    return []
+    n = pa["DofCount"]
+    KB = {(int(e[0]), int(e[1])): C.ffloat(e[2]) for e in oB["KEntries"]}
+    KA = {(int(e[0]), int(e[1])): C.ffloat(e[2]) for e in oA["KEntries"]}
+    big = max([abs(v) for v in KA.values()] + [Fr(0)])
+    fails = []
+    for (i, j), v in KA.items():
+        if i not in perm or j not in perm:
+            continue
+        w = KB.get((perm[i], perm[j]), Fr(0))
+        if abs(v - w) > Fr(1, 10 ** 8) * (abs(v) + abs(w)) + Fr(1, 10 ** 12) * big:
+            fails.append("%s: the stiffness term of equations (%d, %d) is %.9g, the same term of the other drawing (%d, %d) is %.9g" % (what, i, j, float(v), perm[i], perm[j], float(w)))
+            break
+    fa, fb = [C.ffloat(v) for v in oA["F"]], [C.ffloat(v) for v in oB["F"]]
+    fbig = max([abs(v) for v in fa] + [Fr(0)])
+    for i in range(n):
+        if i in perm and abs(fa[i] - fb[perm[i]]) > Fr(1, 10 ** 8) * (abs(fa[i]) + abs(fb[perm[i]])) + Fr(1, 10 ** 11) * fbig:
+            fails.append("%s: the load entry of equation %d is %.9g, the same entry of the other drawing (%d) is %.9g" % (what, i, float(fa[i]), perm[i], float(fb[perm[i]])))
+            break
+    return fails
+
+
 def oracle(c, o):
     g = c.get("group")
     if g is None:
@@ -223,6 +267,12 @@ def oracle(c, o):
         return []
     members = {cc["role"]: (cc, oo) for cc, oo in _groups.pop(g)}
     fails = []
+    for base_role, others in (("base", ("translated", "reversed")), ("base_w", ("reversed_w",))):
+        if base_role in members:
+            for r in others:
+                if r in members:
+                    cc, oB = members[r]
+                    fails += same_system(members[base_role][1], oB, set(cc["par"]) if r.startswith("reversed") else set(), r)
     for base_role, others in (("base", ("translated", "rotated", "mirrored", "reversed")), ("base_w", ("mirrored_w", "reversed_w"))):
         if base_role not in members or not M.solved(members[base_role][1]):
             continue
